@@ -133,6 +133,19 @@ class TopoART(BaseART):
         """
         self.base_module.validate_data(X)
 
+    def check_dimensions(self, X: np.ndarray):
+        """Check the data has the correct dimensions.
+
+        The width is remembered by the base module (see validate_data).
+
+        Parameters
+        ----------
+        X : np.ndarray
+            The input dataset.
+
+        """
+        self.base_module.check_dimensions(X)
+
     def prepare_data(self, X: np.ndarray) -> np.ndarray:
         """Prepare data for clustering.
 
